@@ -32,10 +32,15 @@ struct ck_map {
 	unsigned ksz, vsz;
 	int canned;
 	unsigned char val[512];
+	/* the last entry the program itself wrote (bpf_map_update_elem): a later lookup of THAT key finds it,
+	 * as it would in the kernel (get_eim_mapping re-reads the mapping it has just created) */
+	int has_upd;
+	unsigned char upd_key[64];
+	unsigned char upd_val[512];
 };
 
-#define CK_MAP(n, k, v) {#n, (void *)&n, (unsigned)(k), (unsigned)(v), 0, {0}},
-static struct ck_map ck_maps[] = {CK_MAPS_LIST{0, 0, 0, 0, 0, {0}}};
+#define CK_MAP(n, k, v) {#n, (void *)&n, (unsigned)(k), (unsigned)(v), 0, {0}, 0, {0}, {0}},
+static struct ck_map ck_maps[] = {CK_MAPS_LIST{0, 0, 0, 0, 0, {0}, 0, {0}, {0}}};
 #undef CK_MAP
 
 static char outbuf[1 << 16];
@@ -80,6 +85,8 @@ static void *cap_lookup(void *map, const void *key) {
 	emit(m->name);
 	emit(":");
 	emit_hex(key, m->ksz);
+	if (m->has_upd && m->ksz <= sizeof(m->upd_key) && !memcmp(key, m->upd_key, m->ksz))
+		return m->upd_val;
 	return m->canned ? m->val : NULL;
 }
 
@@ -96,6 +103,11 @@ static long cap_update(void *map, const void *key, const void *value, __u64 flag
 	emit_hex(key, m->ksz);
 	emit(":");
 	emit_hex(value, m->vsz);
+	if (m->ksz <= sizeof(m->upd_key) && m->vsz <= sizeof(m->upd_val)) {
+		memcpy(m->upd_key, key, m->ksz);
+		memcpy(m->upd_val, value, m->vsz);
+		m->has_upd = 1;
+	}
 	return 0;
 }
 
@@ -226,7 +238,7 @@ int main(void) {
 			continue;
 		}
 		for (struct ck_map *m = ck_maps; m->name; m++)
-			m->canned = 0;
+			m->canned = m->has_upd = 0;
 		int bad = 0;
 		for (char *tok; (tok = strtok_r(NULL, " \r\n", &save));) {
 			char *eq = strchr(tok, '=');
